@@ -30,8 +30,33 @@ def call_abs(tr, e, env):
     return Expr(f"(tf_abs {x.coq})", "ftensor", x.pre)
 
 
+def call_nan_to_num(tr, e, env):
+    kws = kwmap(e)
+    x = tr.expr(e.args[0], env)
+    if len(e.args) != 1 or set(kws) != {"nan"} or ast.unparse(kws["nan"]) not in ("0.0", "0") or x.ty != "ftensor":
+        U(e, "torch.nan_to_num form (x, nan=0.0)")
+    return Expr(f"(tf_nan_to_num {x.coq})", "ftensor", x.pre)
+
+
+def call_where(tr, e, env):
+    if len(e.args) != 3 or e.keywords:
+        U(e, "torch.where form")
+    c, a, b = (tr.expr(x, env) for x in e.args)
+    if (c.ty, a.ty, b.ty) != ("btensor", "ftensor", "ftensor"):
+        U(e, "torch.where argument types")
+    return fallible(tr, f"tf_where {c.coq} {a.coq} {b.coq}", "ftensor", c.pre + a.pre + b.pre)
+
+
 def call_clamp(tr, e, env):
     kws = kwmap(e)
+    if len(e.args) == 1 and set(kws) in ({"min"}, {"max"}):
+        x = tr.expr(e.args[0], env)
+        (k, v), = kws.items()
+        b = tr.expr(v, env)
+        if (x.ty, b.ty) != ("ftensor", "int"):
+            U(e, "torch.clamp one-sided argument types")
+        fn = "tf_clamp_max" if k == "max" else "tf_clamp_min"
+        return Expr(f"({fn} {b.coq} {x.coq})", "ftensor", x.pre + b.pre)
     if len(e.args) != 1 or set(kws) != {"min", "max"}:
         U(e, "torch.clamp form")
     x, lo, hi = tr.expr(e.args[0], env), tr.expr(kws["min"], env), tr.expr(kws["max"], env)
@@ -277,6 +302,7 @@ VOCAB = {
     },
     "binop_result": {("pyfloat", "ftensor", "Mult"): "ftensor"},
     "compares": {("shape", "shape", "Eq"): "shape_eqb {a} {b}"},
+    "tensor_compares": {("ftensor", "int", "Eq"): "tf_eq_int {a} {b}"},
     "unops": {("ftensor", "USub"): "tf_neg {a}"},
     "attrs": {
         ("ftensor", "ndim"): ("rank {a}", "int"),
@@ -308,6 +334,8 @@ VOCAB = {
         "torch.round": call_round,
         "torch.abs": call_abs,
         "torch.clamp": call_clamp,
+        "torch.nan_to_num": call_nan_to_num,
+        "torch.where": call_where,
         "torch.max": call_max1,
         "torch.amax": mk_reduce("tf_amax"),
         "torch.amin": mk_reduce("tf_amin"),
